@@ -204,9 +204,77 @@ def execution_contract(work):
                         detail=bad[0] if bad else "", input=bad[1] if bad else None, samples=samples))
 
 
+def sequence_contract(work):
+    """several queries on ONE dataset object: each run uses the image of ITS OWN query (docker metadata if present, else the dataset's image:tag),
+    its own file list and delivers its own result -- whatever the earlier runs on the same object declared or did (failed containers included)."""
+    evals, bad, samples = 0, None, []
+    d = Path(work) / "seqdata"
+    d.mkdir()
+    files = [d / ("s%d.root" % i) for i in range(2)]
+    for f in files:
+        f.write_text("x")
+    out = Path(work) / "seqout"
+    out.mkdir()
+    chunks = [("stdout", b"line\n")]
+    steps_pool = [dict(images=[], oc={}), dict(images=["override/a:1"], oc={}), dict(images=["override/b:2"], oc={}), dict(images=["override/c:3"], oc=dict(fail_at=0)),
+                  dict(images=[], oc=dict(fail_on_call=True))]
+    seqs = [s for n in (2, 3) for s in itertools.product(range(len(steps_pool)), repeat=n)]
+    if TIER == "quick":
+        seqs = [s for s in seqs if len(s) == 2] + [(1, 3, 0), (1, 0, 2), (3, 1, 0), (4, 1, 0)]
+    for backend, cls, coll, _ in datasets():
+        for seq in seqs:
+            ds = cls(list(files), docker_image="base/img", docker_tag="7", output_directory=out)
+            for k, si in enumerate(seq):
+                st = steps_pool[si]
+                content = ("SEQ-%s-%d" % ("".join(map(str, seq)), k)).encode()
+                POW.reset(**dict(dict(chunks=list(chunks), result_content=content), **st["oc"]))
+                want_out = out / "ANALYSIS.root"
+                if want_out.exists():
+                    want_out.unlink()
+                err, val = None, None
+                try:
+                    val = run_value(query(ds, coll, st["images"]))
+                except Exception as e:  # noqa
+                    err = e
+                evals += 1
+                msgs = []
+                fails = bool(st["oc"])
+                if len(POW.CALLS) != 1:
+                    msgs.append("%d containers started, expected exactly one" % len(POW.CALLS))
+                else:
+                    want_image = st["images"] if st["images"] else ["base/img:7"]
+                    if POW.CALLS[0]["image"] not in want_image:
+                        msgs.append("step %d of the sequence %r on one dataset object ran image %r, expected %s" % (
+                            k + 1, [steps_pool[i]["images"] or ["<dataset image>"] for i in seq], POW.CALLS[0]["image"], " or ".join(map(repr, want_image))))
+                    if POW.OBSERVED.get("filelist") != "".join("/data/%s\n" % f.name for f in files):
+                        msgs.append("filelist.txt %r" % (POW.OBSERVED.get("filelist"),))
+                if fails:
+                    if not isinstance(err, POW.exceptions.DockerException):
+                        msgs.append("container failure: expected the DockerException to propagate, got %r / %r" % (err, val))
+                elif err is not None or not (isinstance(val, list) and len(val) == 1 and Path(val[0]).read_bytes() == content):
+                    msgs.append("step %d: returned %r / raised %r, expected this run's own result" % (k + 1, val, err))
+                rd = POW.OBSERVED.get("run_dir")
+                if rd and os.path.exists(rd):
+                    msgs.append("the temporary working directory %s still exists" % rd)
+                if msgs and not bad:
+                    bad = ("; ".join(msgs), dict(backend=backend, sequence=[steps_pool[i] for i in seq], step=k + 1))
+                if len(samples) < 2 and k == 1:
+                    samples.append(dict(backend=backend, sequence=list(seq), docker_calls=list(POW.CALLS)))
+    results.append(dict(name="C17/execute_result_async/bounded:sequences_on_one_dataset", kind="bounded", status="violation" if bad else "ok", evaluations=evals, distinct=evals,
+                        exhaustive=TIER != "quick",
+                        bound="3 backends x sequences of 2%s queries on one dataset object from 5 step kinds (no docker metadata, three different overrides, one of them with a failing "
+                              "container, a container failing at the call)" % (" (and four of 3)" if TIER == "quick" else " and 3"),
+                        detail=bad[0] if bad else "", input=bad[1] if bad else None, samples=samples))
+
+
 work = tempfile.mkdtemp(prefix="c17work_", dir=os.environ.get("VERIF_SCRATCH") or None)
+# a private temporary directory: "nothing is left behind" is observed there, undisturbed by whatever else runs on the machine
+_private_tmp = os.path.join(work, "tmp")
+os.makedirs(_private_tmp)
+os.environ["TMPDIR"] = _private_tmp
+tempfile.tempdir = _private_tmp
 try:
-    for fn in (constructor_contract, execution_contract):
+    for fn in (constructor_contract, execution_contract, sequence_contract):
         try:
             fn(work)
         except Exception as e:  # noqa
